@@ -473,6 +473,9 @@ macro_rules! kind_reversed {
             }
             true
         }
+        pub fn own_list_str(n: &Node<String, i64, u32>) -> Vec<(String, u32)> {
+            n.iter_out().map(|Edge(_, v, e)| (v.key().clone(), e)).collect()
+        }
         fn nested_search(n: &N, t: usize) -> Option<usize> {
             n.bfs().target(&t).search_path().map(|p| p.len() - 1)
         }
@@ -518,6 +521,9 @@ macro_rules! kind_reversed {
             }
             let _ = it.size_hint();
             true
+        }
+        pub fn own_list_str(n: &Node<String, i64, u32>) -> Vec<(String, u32)> {
+            n.iter().map(|Edge(_, v, e)| (v.key().clone(), e)).collect()
         }
         fn nested_search(n: &N, t: usize) -> Option<usize> {
             n.bfs().target(&t).search_path().map(|p| p.len() - 1)
@@ -1241,6 +1247,43 @@ macro_rules! ext_mod {
                                         }
                                     }
                                 }
+                            }
+                            "g.destr" => {
+                                // g.destr <slot> <json|cbor> <hex bytes>: the same container with text keys (`Graph<String, i64, u32>`);
+                                // not modelled, judged by the statement alone: Err exactly when an edge names an undeclared key,
+                                // otherwise the declared nodes and listed edges, and never a panic
+                                type GS = Graph<String, i64, u32>;
+                                type DocS = (Vec<(String, i64)>, Vec<(String, String, u32)>);
+                                let bytes = crate::exec_cont::unhex(t.get(3).copied().unwrap_or(""));
+                                let (r, doc): (Result<GS, String>, Option<DocS>) = if t[2] == "json" {
+                                    (serde_json::from_slice::<GS>(&bytes).map_err(|e| e.to_string()), serde_json::from_slice::<DocS>(&bytes).ok())
+                                } else {
+                                    (serde_cbor::from_slice::<GS>(&bytes).map_err(|e| e.to_string()), serde_cbor::from_slice::<DocS>(&bytes).ok())
+                                };
+                                if !ctx.quiet && ctx.oracles.iter().any(|o| o == "c13") {
+                                    if let Some((dn, de)) = &doc {
+                                        let declared: BTreeSet<&String> = dn.iter().map(|x| &x.0).collect();
+                                        let undeclared = de.iter().any(|x| !declared.contains(&x.0) || !declared.contains(&x.1));
+                                        match &r {
+                                            Ok(_) if undeclared => ctx.fail(case, li, "c13", format!("text keys, {}: an edge names an undeclared key but deserialisation returned Ok", t[2])),
+                                            Err(m) if !undeclared => ctx.fail(case, li, "c13", format!("text keys, {}: every key is declared but deserialisation failed: {m}", t[2])),
+                                            Ok(g) => {
+                                                let mut bad = g.len() != declared.len();
+                                                for (k, n) in g.iter() {
+                                                    bad |= !dn.iter().any(|x| x.0 == *k && x.1 == *n.value());
+                                                    for (v, e) in own_list_str(n) {
+                                                        bad |= !de.iter().any(|x| (x.0 == *k && x.1 == v || !DIRECTED && x.0 == v && x.1 == *k) && x.2 == e);
+                                                    }
+                                                }
+                                                if bad {
+                                                    ctx.fail(case, li, "c13", format!("text keys, {}: the Ok graph has a node or edge the document does not declare, or lacks a declared node", t[2]));
+                                                }
+                                            }
+                                            _ => {}
+                                        }
+                                    }
+                                }
+                                "robust".into()
                             }
                             _ => "bad-op".into(),
                         }
